@@ -37,10 +37,17 @@ import (
 //	       (ok = write output + ResetRestartBackoff, okn = write output, no reset,
 //	       error / panic = Run returns an error / panics, errw = write output then fail,
 //	       finish = Run returns nil, canceled = Run returns an error wrapping context.Canceled)
-//	q1/a, q1/b   QController.Reconcile of primary input In/a, In/b (ok, error, panic, errw)
-//	q1/m   QController.MapInput of mapped input Aux/m (ok maps to In/a; error, panic)
-//	q1/h   the QController's RunHook (error / panic after `dur` ns of run time, ok = returns nil)
-//	t1     a pkg/task task started through task.Runner (error / panic after `dur`, ok = returns nil)
+//	       with header trk=1 the probe uses the OUTPUT TRACKER: every reconcile starts with StartTrackingOutputs
+//	       and, if it succeeds, ends with CleanupOutputs (which resets the restart backoff too: okn = ok); an
+//	       error / panic / errw leaves the reconcile between the two calls
+//	q1/a, q1/b   QController.Reconcile of primary input In/a, In/b (ok, error, panic, errw, errz = the error comes
+//	       wrapped in a RequeueError whose interval is 0: a failure like any other; canceled = an error wrapping
+//	       context.Canceled: the q-runtime takes it for success)
+//	q1/m   QController.MapInput of mapped input Aux/m (ok maps to In/a; error, panic, errz)
+//	q1/h   the QController's RunHook (error / panic after `dur` ns of run time, ok = returns nil, canceled =
+//	       returns an error wrapping context.Canceled: a clean exit by design)
+//	t1     a pkg/task task started through task.Runner (error / panic after `dur`, ok = returns nil, canceled =
+//	       returns an error wrapping context.Canceled while its context is alive: a FAILURE, restarted like any other)
 //
 // (`om s=<stream> pat=<e|p|w…> lo=<list> hi=<list>` is a whole chain of failing entries on one
 // line — error / panic / errw, run time 0 — taken all or nothing.)
@@ -86,7 +93,11 @@ type fltEntry struct {
 	lo, hi int64
 }
 
-func fltFailing(o string) bool { return o == "error" || o == "panic" || o == "errw" }
+func fltFailing(o string) bool { return o == "error" || o == "panic" || o == "errw" || o == "errz" }
+
+// fltFailingK: is the outcome a failure of a stream of this kind, by the property? For a task an error that wraps
+// context.Canceled (its own context being alive) is one; for controllers and run hooks it is a clean exit by design.
+func fltFailingK(kind byte, o string) bool { return fltFailing(o) || (kind == 't' && o == "canceled") }
 
 type fltStream struct {
 	name  string
@@ -95,6 +106,7 @@ type fltStream struct {
 	// positional streak of the script (for the lo/hi check of script lines)
 	scriptStreak int
 	scriptDead   bool // an entry after which nothing is consumed (finish/canceled/ok of hook+task)
+	trk          bool // a tracking Controller: CleanupOutputs resets the restart backoff, okn = ok
 	// real bookkeeping
 	count    int
 	consumed int
@@ -172,7 +184,7 @@ func (w *fltWorld) invoke(name, obs string) fltEntry {
 		w.invAfter++
 	}
 
-	s.prevFail = fltFailing(e.o)
+	s.prevFail = fltFailingK(s.kind, e.o)
 	s.prevEnd = now.Add(time.Duration(e.dur))
 	s.prevLo, s.prevHi = e.lo, e.hi
 
@@ -220,6 +232,7 @@ type fltR struct {
 	w    *fltWorld
 	name string
 	out  string
+	trk  bool // use the output tracker: StartTrackingOutputs … CleanupOutputs around every reconcile
 }
 
 func (p *fltR) Name() string { return p.name }
@@ -257,6 +270,11 @@ func (p *fltR) Run(ctx context.Context, r controller.Runtime, _ *zap.Logger) err
 		case <-r.EventCh():
 		}
 
+		if p.trk {
+			// the documented protocol of controller.OutputTracker: first thing of the reconcile cycle
+			r.StartTrackingOutputs()
+		}
+
 		obs := "a" + fltRead(ctx, r, "In", "a") + "b" + fltRead(ctx, r, "In", "b")
 		e := p.w.invoke(p.name, obs)
 
@@ -264,6 +282,12 @@ func (p *fltR) Run(ctx context.Context, r controller.Runtime, _ *zap.Logger) err
 		case "ok", "okn", "errw":
 			if err := fltWriteOut(ctx, r, p.out, "o", obs); err != nil {
 				return fmt.Errorf("probe output write: %w", err)
+			}
+		}
+
+		if p.trk && (e.o == "ok" || e.o == "okn") {
+			if err := r.CleanupOutputs(ctx, resource.NewMetadata("n1", p.out, "", resource.VersionUndefined)); err != nil {
+				return fmt.Errorf("probe output cleanup: %w", err)
 			}
 		}
 
@@ -344,6 +368,15 @@ func fltLoopOutcome(ctx context.Context, e fltEntry) error {
 		}
 
 		panic("scripted panic")
+	case "canceled":
+		fltSleep(ctx, e.dur)
+
+		if ctx.Err() != nil {
+			return nil
+		}
+
+		// e.g. a sub-request under a derived context was aborted: the context given to us is alive
+		return fmt.Errorf("scripted sub-request: %w", context.Canceled)
 	default:
 		fltSleep(ctx, e.dur)
 
@@ -369,8 +402,12 @@ func (p *fltQ) Reconcile(ctx context.Context, _ *zap.Logger, r controller.QRunti
 	switch e.o {
 	case "error", "errw":
 		return errFltScripted
+	case "errz":
+		return controller.NewRequeueError(errFltScripted, 0)
 	case "panic":
 		panic("scripted panic")
+	case "canceled":
+		return fmt.Errorf("scripted sub-request: %w", context.Canceled)
 	}
 
 	return nil
@@ -383,6 +420,8 @@ func (p *fltQ) MapInput(ctx context.Context, _ *zap.Logger, r controller.QRuntim
 	switch e.o {
 	case "error", "errw":
 		return nil, errFltScripted
+	case "errz":
+		return nil, controller.NewRequeueError(errFltScripted, 0)
 	case "panic":
 		panic("scripted panic")
 	}
@@ -545,10 +584,11 @@ func (p *fltProxy) watchesClosed() bool {
 type fltCfg struct {
 	nr, conc         int
 	q, hook, hasTask bool
+	trk              bool // the probe Controllers use the output tracker
 }
 
 func fltParseCfg(h Args) fltCfg {
-	c := fltCfg{nr: min(h.Int("nr"), 3), conc: max(h.Int("conc"), 1), q: h["q"] == "1", hook: h["hook"] == "1", hasTask: h["task"] == "1"}
+	c := fltCfg{nr: min(h.Int("nr"), 3), conc: max(h.Int("conc"), 1), q: h["q"] == "1", hook: h["hook"] == "1", hasTask: h["task"] == "1", trk: h["trk"] == "1"}
 	if !c.q {
 		c.hook = false
 	}
@@ -644,7 +684,7 @@ func (in *fltInst) await() string {
 func fltNewInst(cfg fltCfg) *fltInst {
 	w := &fltWorld{streams: map[string]*fltStream{}, lastPut: map[string]time.Time{}, order: cfg.streamNames()}
 	for _, n := range w.order {
-		w.streams[n] = &fltStream{name: n, kind: fltKind(n)}
+		w.streams[n] = &fltStream{name: n, kind: fltKind(n), trk: cfg.trk && fltKind(n) == 'r'}
 	}
 
 	in := &fltInst{cfg: cfg, w: w, done: make(chan error, 1)}
@@ -660,7 +700,7 @@ func fltNewInst(cfg fltCfg) *fltInst {
 	in.rt = rt
 
 	for i := 1; i <= cfg.nr; i++ {
-		if err := rt.RegisterController(&fltR{w: w, name: fmt.Sprintf("r%d", i), out: fmt.Sprintf("OutR%d", i)}); err != nil {
+		if err := rt.RegisterController(&fltR{w: w, name: fmt.Sprintf("r%d", i), out: fmt.Sprintf("OutR%d", i), trk: cfg.trk}); err != nil {
 			panic(err)
 		}
 	}
@@ -874,7 +914,7 @@ func fltMarathonCheck(s *fltStream, a Args) ([]fltEntry, string) {
 	var entries []fltEntry
 
 	for i, ch := range pat {
-		e := fltEntry{o: map[rune]string{'e': "error", 'p': "panic", 'w': "errw"}[ch]}
+		e := fltEntry{o: map[rune]string{'e': "error", 'p': "panic", 'w': "errw", 'z': "errz"}[ch]}
 		if e.o == "" {
 			e.o = "?"
 		}
@@ -896,7 +936,7 @@ func fltMarathonCheck(s *fltStream, a Args) ([]fltEntry, string) {
 }
 
 func fltScriptEntry(s *fltStream, e fltEntry) (fltEntry, string) {
-	valid := map[byte]string{'r': "ok okn error panic errw finish canceled", 'q': "ok error panic errw", 'm': "ok error panic", 'h': "ok error panic", 't': "ok error panic"}
+	valid := map[byte]string{'r': "ok okn error panic errw finish canceled", 'q': "ok error panic errw errz canceled", 'm': "ok error panic errz", 'h': "ok error panic canceled", 't': "ok error panic canceled"}
 	if !strings.Contains(" "+valid[s.kind]+" ", " "+e.o+" ") {
 		return e, "bad-outcome"
 	}
@@ -912,7 +952,7 @@ func fltScriptEntry(s *fltStream, e fltEntry) (fltEntry, string) {
 	var wlo, whi int64
 
 	switch {
-	case fltFailing(e.o):
+	case fltFailingK(s.kind, e.o):
 		if s.kind == 'h' && e.dur > int64(time.Minute) {
 			s.scriptStreak = 0
 		}
@@ -930,8 +970,8 @@ func fltScriptEntry(s *fltStream, e fltEntry) (fltEntry, string) {
 		}
 
 		switch {
-		case e.o == "okn" && s.kind == 'r':
-		case e.o == "finish" || e.o == "canceled" || s.kind == 'h' || s.kind == 't':
+		case e.o == "okn" && s.kind == 'r' && !s.trk:
+		case e.o == "finish" || (e.o == "canceled" && s.kind != 'q') || s.kind == 'h' || s.kind == 't':
 			s.scriptDead = true
 		default:
 			s.scriptStreak = 0
@@ -1311,7 +1351,7 @@ func (*fltEngine) Cases(thorough bool) int {
 }
 
 func (*fltEngine) Rule() string {
-	return "real runtime under synctest with 0-3 probe Controllers, an optional probe QController (2 primary keys, a mapped input, optional run hook, concurrency 1-2) and an optional pkg/task task, every invocation's outcome scripted (ok/okn/error/panic/errw, run durations for hook and task); timeline of input writes and clock advances at instants before, inside and after the restart windows; about one case in ten with a marathon stream (40-55 consecutive failures of one controller / queue item / mapped input / hook / task, i.e. more than 15 virtual minutes of continuous failure, every restart classified against its window); ending in convergence-vs-fault-free-twin, an injected watch Errored event, cancellation at a random instant, or a watch failure racing with cancellation (cancelerr: the context is cancelled while the batch that carries the Errored event is being processed, with and without letting Run observe the cancellation first; Run must return within a virtual minute: run=returned/hung); each case in a child process; non-trivial = at least two streams invoked, a timer-driven restart inside its window, an input write that woke one stream while another stream's last scripted outcome was a failure (it is backing off), and one of converge/watcherr/cancel/cancelerr; distinct by hash of the op lines"
+	return "real runtime under synctest with 0-3 probe Controllers (one case in three: using the output tracker, StartTrackingOutputs … CleanupOutputs around every reconcile, so that a scripted error / panic strikes between the two), an optional probe QController (2 primary keys, a mapped input, optional run hook, concurrency 1-2) and an optional pkg/task task, every invocation's outcome scripted (ok/okn/error/panic/errw, errz = a queue item's / mapped input's error wrapped in a RequeueError with interval 0, and canceled = an error wrapping context.Canceled while the context is alive: a clean exit for Controller and hook, success for a queue item, one more failure for a task; run durations for hook and task); timeline of input writes and clock advances at instants before, inside and after the restart windows; about one case in ten with a marathon stream (40-55 consecutive failures of one controller / queue item / mapped input / hook / task, i.e. more than 15 virtual minutes of continuous failure, every restart classified against its window); ending in convergence-vs-fault-free-twin, an injected watch Errored event, cancellation at a random instant, or a watch failure racing with cancellation (cancelerr: the context is cancelled while the batch that carries the Errored event is being processed, with and without letting Run observe the cancellation first; Run must return within a virtual minute: run=returned/hung); each case in a child process; non-trivial = at least two streams invoked, a timer-driven restart inside its window, an input write that woke one stream while another stream's last scripted outcome was a failure (it is backing off), and one of converge/watcherr/cancel/cancelerr; distinct by hash of the op lines"
 }
 
 func (*fltEngine) NonTrivial(c Case, out []string) bool {
@@ -1363,7 +1403,7 @@ func (*fltEngine) NonTrivial(c Case, out []string) bool {
 
 				fmt.Sscanf(inv, "%d:", &j)
 
-				if j < len(scripts[k]) && fltFailing(scripts[k][j]) {
+				if j < len(scripts[k]) && fltFailingK(fltKind(k), scripts[k][j]) {
 					failing[k] = true
 				} else {
 					delete(failing, k)
@@ -1409,6 +1449,8 @@ func fltMarathon(r *Rand, name string, n int) ([]string, int64) {
 			o = 'p'
 		case (kind == 'r' || kind == 'q') && r.Chance(1, 6):
 			o = 'w'
+		case (kind == 'q' || kind == 'm') && r.Chance(1, 6):
+			o = 'z'
 		}
 
 		lo, hi := goBounds(j)
@@ -1423,7 +1465,7 @@ func fltMarathon(r *Rand, name string, n int) ([]string, int64) {
 }
 
 // genScript produces the script lines of one stream (with the windows of the schedule).
-func fltGenScript(r *Rand, name string, thorough bool) []string {
+func fltGenScript(r *Rand, name string, thorough, trk bool) []string {
 	kind := fltKind(name)
 	n := r.Intn(7)
 
@@ -1451,15 +1493,26 @@ func fltGenScript(r *Rand, name string, thorough bool) []string {
 		case 'q':
 			if r.Intn(100) < failBias {
 				o = fltFail(r)
+
+				if r.Chance(1, 5) {
+					o = "errz"
+				}
+			} else if r.Chance(1, 8) {
+				o = "canceled"
 			}
 		case 'm':
 			if r.Intn(100) < failBias {
-				o = Pick(r, []string{"error", "error", "panic"})
+				o = Pick(r, []string{"error", "error", "panic", "errz"})
 			}
 		default: // hook, task: ok ends the loop for good, keep it rare
 			o = Pick(r, []string{"error", "error", "panic"})
 			if r.Chance(1, 12) {
 				o = "ok"
+			}
+
+			// an error that wraps context.Canceled: one more failure for a task, the end of the loop for a hook
+			if (kind == 't' && r.Chance(1, 4)) || (kind == 'h' && r.Chance(1, 16)) {
+				o = "canceled"
 			}
 
 			dur = Pick(r, []int64{0, 0, 0, 1_000_000_000, 59_000_000_000, 60_000_000_000, 60_000_000_001, 120_000_000_000})
@@ -1470,20 +1523,20 @@ func fltGenScript(r *Rand, name string, thorough bool) []string {
 
 		var lo, hi int64
 
-		if fltFailing(o) {
+		if fltFailingK(kind, o) {
 			if kind == 'h' && dur > int64(time.Minute) {
 				streak = 0
 			}
 
 			lo, hi = goBounds(streak)
 			streak++
-		} else if !(o == "okn" && kind == 'r') {
+		} else if !(o == "okn" && kind == 'r' && !trk) {
 			streak = 0
 		}
 
 		lines = append(lines, fmt.Sprintf("o s=%s o=%s dur=%d lo=%d hi=%d", name, o, dur, lo, hi))
 
-		if (kind == 'h' || kind == 't') && o == "ok" {
+		if (kind == 'h' || kind == 't') && !fltFailingK(kind, o) {
 			break
 		}
 	}
@@ -1499,6 +1552,9 @@ func (e *fltEngine) Gen(r *Rand, thorough bool, idx int) Case {
 		cfg.nr = 1 + r.Intn(2)
 	}
 
+	// the probe Controllers use the output tracker (StartTrackingOutputs … CleanupOutputs around every reconcile)
+	cfg.trk = cfg.nr > 0 && r.Chance(1, 3)
+
 	b := func(x bool) int {
 		if x {
 			return 1
@@ -1507,7 +1563,7 @@ func (e *fltEngine) Gen(r *Rand, thorough bool, idx int) Case {
 		return 0
 	}
 
-	c := Case{Header: fmt.Sprintf("# engine=faults nr=%d q=%d conc=%d hook=%d task=%d case=%d", cfg.nr, b(cfg.q), cfg.conc, b(cfg.hook), b(cfg.hasTask), idx)}
+	c := Case{Header: fmt.Sprintf("# engine=faults nr=%d q=%d conc=%d hook=%d task=%d trk=%d case=%d", cfg.nr, b(cfg.q), cfg.conc, b(cfg.hook), b(cfg.hasTask), b(cfg.trk), idx)}
 
 	// a marathon: one stream fails 40-55 times in a row
 	marathon, chain := "", int64(0)
@@ -1526,7 +1582,7 @@ func (e *fltEngine) Gen(r *Rand, thorough bool, idx int) Case {
 			continue
 		}
 
-		scripts = append(scripts, fltGenScript(r, n, thorough))
+		scripts = append(scripts, fltGenScript(r, n, thorough, cfg.trk))
 	}
 
 	// interleave the script lines (their order across streams is immaterial)
@@ -1721,6 +1777,28 @@ func (*fltEngine) Corpus(bool) []Case {
 		{Header: "# engine=faults nr=2 q=0 conc=1 hook=0 task=0 case=corpus-finish-quirk", Ops: []string{
 			ln("r1", "finish", 0, -1), ln("r2", "error", 0, 0), ln("r2", "canceled", 0, -1),
 			"start", "write id=a v=1", "advance d=1000000000", "write id=a v=2", "advance d=100000000000", "write id=b v=3", "converge v=9", "end",
+		}},
+		// a tracking controller: panic, errw and error strike between StartTrackingOutputs and CleanupOutputs; okn resets too
+		{Header: "# engine=faults nr=2 q=0 conc=1 hook=0 task=0 trk=1 case=corpus-tracker-faults", Ops: []string{
+			ln("r1", "panic", 0, 0), ln("r1", "errw", 0, 1), ln("r1", "okn", 0, -1), ln("r1", "error", 0, 0), ln("r1", "ok", 0, -1),
+			ln("r2", "ok", 0, -1), ln("r2", "panic", 0, 0), ln("r2", "panic", 0, 1),
+			"start", "advance d=2000000000000", "write id=a v=1", "advance d=2000000000000", "write id=b v=2", "advance d=100000000", "write id=a v=3",
+			"advance d=2000000000000", "converge v=9", "end",
+		}},
+		// an error that wraps context.Canceled, the context being alive: every kind of stream
+		{Header: "# engine=faults nr=1 q=1 conc=1 hook=1 task=1 trk=0 case=corpus-canceled-error", Ops: []string{
+			ln("t1", "canceled", 0, 0), ln("t1", "error", 0, 1), ln("t1", "canceled", 1000000, 2), ln("t1", "panic", 0, 3), ln("t1", "ok", 0, -1),
+			ln("q1/a", "error", 0, 0), ln("q1/a", "canceled", 0, -1), ln("q1/a", "error", 0, 0), ln("q1/h", "error", 0, 0), ln("q1/h", "canceled", 0, -1),
+			ln("r1", "error", 0, 0), ln("r1", "canceled", 0, -1),
+			"write id=a v=1", "start", "advance d=2000000000000", "write id=a v=2", "advance d=2000000000000", "write id=a v=3", "advance d=2000000000000",
+			"write id=b v=4", "converge v=9", "end",
+		}},
+		// a queue item / mapped input that fails with controller.NewRequeueError(err, 0): retried with the error backoff
+		{Header: "# engine=faults nr=0 q=1 conc=1 hook=0 task=0 trk=0 case=corpus-requeue-error-zero", Ops: []string{
+			ln("q1/a", "errz", 0, 0), ln("q1/a", "error", 0, 1), ln("q1/a", "errz", 0, 2), ln("q1/a", "ok", 0, -1), ln("q1/a", "errz", 0, 0),
+			ln("q1/m", "errz", 0, 0), ln("q1/m", "ok", 0, -1),
+			"write id=a v=1", "start", "advance d=2000000000000", "write id=m v=2", "advance d=2000000000000", "write id=a v=3", "advance d=2000000000000",
+			"converge v=9", "end",
 		}},
 		{Header: "# engine=faults nr=1 q=1 conc=1 hook=1 task=1 case=corpus-q-all", Ops: []string{
 			ln("q1/a", "error", 0, 0), ln("q1/a", "panic", 0, 1), ln("q1/a", "errw", 0, 2), ln("q1/a", "ok", 0, -1), ln("q1/a", "error", 0, 0),
